@@ -12,7 +12,7 @@ BOUNDS = dict(quick='vector length 1..3 (adjusted R2: 3), every entry a symbolic
 ASSUMPTIONS = ['exact real arithmetic (T1): "to within rounding" is read as equality over the reals',
                'log is an uninterpreted function shared by code and spec (log 1 = 0)',
                'numba compiles the decorated Python bodies to the same value-level semantics (T3); replays run the jitted functions']
-CONFIG = dict(quick=dict(budget_s=150, case_wall_s=100), thorough=dict(budget_s=1700, case_wall_s=900))
+CONFIG = dict(quick=dict(budget_s=150, case_wall_s=100), thorough=dict(budget_s=900, case_wall_s=600))
 EPS = Fr(1, 10 ** 16)
 METRICS = ['r2', 'r2adj', 'rmse', 'rmsle', 'rmspe', 'rpd', 'smape', 'residuals']
 
